@@ -537,6 +537,15 @@ impl XType {
                 }
                 Self::Tuple(new_types).into()
             }
+            Self::XCallable(spec) => Self::XCallable(XCallableSpec {
+                param_types: spec
+                    .param_types
+                    .iter()
+                    .map(|t| t.resolve_bind(bind, tail))
+                    .collect(),
+                return_type: spec.return_type.resolve_bind(bind, tail),
+            })
+            .into(),
             Self::Compound(ct, spec, original_bind) => {
                 let mut new_bind = Bind::default();
                 for gen_name in spec.generic_names.iter(){
